@@ -838,7 +838,14 @@ package kcp
 //@   ensures @C19 [at-most-one-packet] sends(UDPSession.chPostProcessing, s.chPostProcessing) <= old(sends(UDPSession.chPostProcessing, s.chPostProcessing)) + 1
 //@   ensures @C19 [stream-untouched] sameheap(KCP, RingBuffer, segmentHeap, fecDecoder, shardHeap, fecEncoder, allmaps)
 //
+// Channels that are only ever closed, never sent on: a receive that succeeds has seen the close.
+//@ closeonly UDPSession.die Listener.die TimedSched.die UDPSession.chSocketReadError UDPSession.chSocketWriteError Listener.chSocketReadError
+//
+// The scheduled callback (C15, termination half): it puts itself back on the scheduler only when
+// it has just seen the session open, so the chain of callbacks ends with the first run after
+// Close (checked without interference: a Close racing with this run is seen by the next one).
 //@ func UDPSession.update
+//@   callsite TimedSched.Put requires @C15 [update-re-arms-itself-only-while-the-session-is-open] !closed(s.die)
 //@   requires s.imm() && !held(s.mu)
 //@   modifies everything
 //
